@@ -14,7 +14,8 @@ Fixpoint content_lines_ok (impl : list (list N)) (spec : list line) : bool :=
   end.
 
 Definition C04_ok1 (t : wtab) (v : view) (dc : dcase) : bool :=
-  let '(_, d, obs) := dc in
+  let '(pre, d, obs) := dc in
+  populate_ok pre d &&
   if in_domain t d v then
     match obs with
     | Ok out => content_lines_ok (lines_of out) (layout (Wof t) d v)
